@@ -71,6 +71,13 @@ char *strcpy(char *dst, const char *src)
 	return dst;
 }
 
+/* strcmp: the call whose FIRST argument is g_strcmp_watch is recorded in ghost
+ * state (which strings were compared and what the answer was), so that
+ * postconditions can say "the verdict is strcmp()==0 on exactly these two". */
+const char *g_strcmp_watch, *g_strcmp_b;
+int g_strcmp_ret;
+unsigned g_strcmp_hits;
+
 int strcmp(const char *a, const char *b)
 {
 	size_t la = strlen(a);
@@ -81,5 +88,10 @@ int strcmp(const char *a, const char *b)
 	if (la != lb || a[0] != b[0] ||
 	    (g_str_k < la && a[g_str_k] != b[g_str_k]))
 		__CPROVER_assume(r != 0);
+	if (a == g_strcmp_watch && a != NULL) {
+		g_strcmp_b = b;
+		g_strcmp_ret = r;
+		g_strcmp_hits++;
+	}
 	return r;
 }
